@@ -28,6 +28,10 @@ from rpft.rapidpro.utils import generate_new_uuid
 
 
 class BaseNode(ABC):
+    # Whether the cases/categories of the node exist through the conditional edges
+    # leaving its row (rather than coming with the row itself)
+    has_free_cases = False
+
     def __init__(
         self,
         uuid=None,
@@ -242,6 +246,8 @@ class RouterNode(BaseNode, ABC):
 
 
 class SwitchRouterNode(RouterNode):
+    has_free_cases = True
+
     def __init__(
         self,
         operand=None,
@@ -393,6 +399,8 @@ class SwitchRouterNode(RouterNode):
 
 
 class RandomRouterNode(RouterNode):
+    has_free_cases = True
+
     def __init__(self, result_name=None, uuid=None, router=None, ui_pos=None):
         super().__init__(uuid, ui_pos=ui_pos)
         if router:
